@@ -35,6 +35,16 @@ Theorem levenshtein_equations :
              (Nat.min (levenshtein (a ++ [x]) b + 1) (levenshtein a b + if Z.eqb x y then 0 else 1))).
 Proof. exact (conj levenshtein_nil_l (conj levenshtein_nil_r levenshtein_snoc)). Qed.
 
+(* ... and those equations have exactly one solution: ANY function satisfying the textbook
+   recurrence is the function the DP computes. *)
+Theorem levenshtein_unique_solution : forall f : sent -> sent -> nat,
+  (forall b, f [] b = List.length b) ->
+  (forall a, f a [] = List.length a) ->
+  (forall a x b y, f (a ++ [x]) (b ++ [y]) =
+     Nat.min (f a (b ++ [y]) + 1) (Nat.min (f (a ++ [x]) b + 1) (f a b + if Z.eqb x y then 0 else 1))) ->
+  forall a b, f a b = edit_distance a b.
+Proof. exact levenshtein_unique. Qed.
+
 (* ---- WER / WIP / WIL -------------------------------------------------------------------- *)
 (* For ANY merge tree of WordErrorRate objects (any sharding, empty shards, nested merges, updates
    after merges) compute() equals the definition -- sum of reference Levenshtein distances over the
@@ -167,3 +177,4 @@ Print Assumptions bleu_brevity_spec.
 Print Assumptions bleu_spec.
 Print Assumptions bleu_functional_spec.
 Print Assumptions bleu_value_is_number_refuted.
+Print Assumptions levenshtein_unique_solution.
